@@ -4,6 +4,7 @@
 From Coq Require Import List ZArith NArith String Ascii Bool.
 From IprV Require Import GenTypes Arena ArenaProofs.
 From IprV.gen Require Import GenWords.
+From IprV Require StateSpace.
 Import ListNotations.
 
 Definition known_words : list word := map bytes_of_string gen_known_words.
@@ -72,6 +73,12 @@ Example c03_nonvacuous :
   [SDynamic 0; SDynamic 1; SEmpty; SReserved 26; SDynamic 0; SDynamic 2; SDynamic 3; SDynamic 1].
 Proof. vm_compute. reflexivity. Qed.
 
+(* the string pool and its arena have the data members the Arena model speaks about (a word header of a 64-bit length and 8 inline characters; a pool chain; the next free header): no cache, index or narrower counter (StateSpace.v against the regenerated GenState) *)
+Theorem c03_state_is_what_the_model_abstracts :
+  StateSpace.state_as_modelled (StateSpace.string_pool_state) = true.
+Proof. vm_compute. reflexivity. Qed.
+
+Print Assumptions c03_state_is_what_the_model_abstracts.
 Print Assumptions c03_known_words_sorted.
 Print Assumptions c03_binary_search_correct.
 Print Assumptions c03_headers_enough.
